@@ -20,6 +20,8 @@ TRUSTED = ['clang 14 AST + constant evaluation', 'bsfacts', 'bsv/dtab.py interpr
 
 
 def cell_str(c):
+    if isinstance(c[0], tuple):
+        return 'sec %d..%d ns %d..%d' % (c[0][0], c[0][1], c[1][0], c[1][1])
     return '%d..%d' % c
 
 
@@ -37,6 +39,17 @@ def run(prog, rep):
         for (name, pt), (f, fam, per) in sorted(T[kind].items(), key=lambda kv: str(kv[0])):
             rep.touch(f)
             bad = {}
+            if fam == 'timestamp':
+                tsbad = {}
+                for cell, seqs in sorted(per.items()):
+                    check_timestamp_cell(rep, kind, f, cell, seqs, tsbad)
+                for label, lst in tsbad.items():
+                    rep.finding('R6.1', '%s|WriteValue(CBinTimestamp)|%s' % (kind, label), f.loc(),
+                                '%s writer: timestamps with seconds/nanoseconds in %s must be written as %s but the writer emits %s'
+                                % (kind, ', '.join('sec %d..%d ns %d..%d' % (c[0][0], c[0][1], c[1][0], c[1][1]) for c, _ in lst[:4]), label, lst[0][1]),
+                                {'cells': [str(c) for c, _ in lst], 'emitted': str(lst[0][1])}, func=f.id, count=len(lst))
+                check_timestamp96_order(rep, kind, f, per)
+                continue
             for cell, seqs in sorted(per.items()):
                 site = '%s|%s(%s)|%s' % (kind, name, pt, cell_str(cell))
                 # R6.4 on every emitted sequence
@@ -47,9 +60,6 @@ def run(prog, rep):
                 else:
                     rep.ok('R6.4', site, nontrivial=any(a[0] == 'EMITBE' for s in seqs for a in s))
                 exp, label = expected(fam, cell)
-                if fam == 'timestamp':
-                    check_timestamp_layout(rep, kind, f, seqs)
-                    continue
                 if exp is None:
                     continue
                 got = set(W.norm_seq(s) for s in seqs)
@@ -131,28 +141,50 @@ def run(prog, rep):
     rep.note('informational: MsgPack write scopes only detect writing MORE than the declared count (no declared==written check at scope end)')
 
 
-def check_timestamp_layout(rep, kind, f, seqs):
-    """spec 'Timestamp extension type': ts32 = d6 ff + 4 bytes; ts64 = d7 ff + 8 bytes; ts96 = c7 0c ff + nanoseconds(4) + seconds(8)"""
+def check_timestamp_cell(rep, kind, f, cell, seqs, bad):
+    """spec 'Timestamp extension type': ts32 (d6 ff + BE32 seconds) iff nanoseconds == 0 and 0 <= seconds < 2^32;
+    ts64 (d7 ff + BE64 (nanoseconds << 34 | seconds)) iff 0 <= seconds < 2^34 otherwise; else ts96 (c7 0c ff + 12 bytes)."""
+    (slo, shi), (nlo, nhi) = cell
     got = set(seqs)
-    want32 = (('EMIT1', 'const', 0xd6), ('EMIT1', 'const', 0xff))
-    want64 = (('EMIT1', 'const', 0xd7), ('EMIT1', 'const', 0xff))
-    hdr96 = (('EMIT1', 'const', 0xc7), ('EMIT1', 'const', 12), ('EMIT1', 'const', 0xff))
-    for nm, hdr, sizes in (('timestamp 32', want32, (4,)), ('timestamp 64', want64, (8,))):
-        ok = any(s[:len(hdr)] == hdr and tuple(a[2] for a in s[len(hdr):] if a[0] == 'EMITBE') == sizes and len(s) == len(hdr) + 1 for s in got)
-        site = '%s|WriteValue(CBinTimestamp)|%s' % (kind, nm)
+    site = '%s|WriteValue(CBinTimestamp)|sec %d..%d ns %d..%d' % (kind, slo, shi, nlo, nhi)
+    if slo >= 0 and shi < (1 << 32) and nhi == 0:
+        want = {(('EMIT1', 'const', 0xd6), ('EMIT1', 'const', 0xff), ('EMITBE', 'SEC', 4, 4))}
+        label = 'timestamp 32'
+    elif slo >= 0 and shi < (1 << 34):
+        want = {(('EMIT1', 'const', 0xd7), ('EMIT1', 'const', 0xff), ('EMITBE', 'OR(SHL34(NS),SEC)', 8, 8))}
+        if nhi == 0:
+            want.add((('EMIT1', 'const', 0xd7), ('EMIT1', 'const', 0xff), ('EMITBE', 'SEC', 8, 8)))
+        if slo == shi == 0:
+            want.add((('EMIT1', 'const', 0xd7), ('EMIT1', 'const', 0xff), ('EMITBE', 'SHL34(NS)', 8, 8)))
+        label = 'timestamp 64'
+    elif shi < 0 or slo >= (1 << 34):
+        label = 'timestamp 96'
+        hdr = (('EMIT1', 'const', 0xc7), ('EMIT1', 'const', 12), ('EMIT1', 'const', 0xff))
+        ok = len(got) == 1 and all(s[:3] == hdr and sorted((a[1], a[2]) for a in s[3:] if a[0] == 'EMITBE') == [('NS', 4), ('SEC', 8)]
+                                   and len(s) == 5 for s in got)
         if ok:
-            rep.ok('R6.1', site, sample={'writer': kind, 'layout': nm})
+            rep.ok('R6.1', site, sample={'writer': kind, 'cell': site.split('|')[-1], 'layout': label})
         else:
-            rep.finding('R6.1', site, f.loc(), '%s writer: %s is not emitted as header %s + %d big-endian payload bytes' % (kind, nm, hdr, sizes[0]),
-                        {'emitted': str(sorted(got))}, func=f.id)
-    s96 = [s for s in got if s[:3] == hdr96]
+            bad.setdefault(label, []).append((cell, sorted(got)))
+        return
+    else:
+        raise AnalysisBroken('timestamp cell %r straddles a spec threshold' % (cell,))
+    if len(got) == 1 and got <= want:
+        rep.ok('R6.1', site, sample={'writer': kind, 'cell': site.split('|')[-1], 'layout': label} if slo == (1 << 32) else None)
+    else:
+        bad.setdefault(label, []).append((cell, sorted(got)))
+
+
+def check_timestamp96_order(rep, kind, f, per):
+    hdr = (('EMIT1', 'const', 0xc7), ('EMIT1', 'const', 12), ('EMIT1', 'const', 0xff))
+    s96 = sorted(set(s for seqs in per.values() for s in seqs if s[:3] == hdr))
     site = '%s|WriteValue(CBinTimestamp)|timestamp 96' % kind
     if not s96:
-        rep.finding('R6.1', site + '|missing', f.loc(), '%s writer: no timestamp 96 (c7 0c ff) path' % kind, {'emitted': str(sorted(got))}, func=f.id)
+        rep.finding('R6.1', site + '|missing', f.loc(), '%s writer: no timestamp 96 (c7 0c ff) path' % kind, func=f.id)
         return
     pay = [(a[1], a[2]) for a in s96[0][3:] if a[0] == 'EMITBE']
-    if pay == [("('FIELD', 'Nanoseconds')", 4), ("('FIELD', 'Seconds')", 8)]:
-        rep.ok('R6.1', site, sample={'writer': kind, 'layout': 'timestamp 96', 'fields': pay})
+    if pay == [('NS', 4), ('SEC', 8)]:
+        rep.ok('R6.1', site + '|field order', sample={'writer': kind, 'layout': 'timestamp 96', 'fields': pay})
     else:
         rep.finding('R6.1', site + '|field order', f.loc(),
                     '%s writer: timestamp 96 payload is %s; the specification requires 32-bit nanoseconds first, then 64-bit seconds' % (kind, pay),
